@@ -239,34 +239,83 @@ func c7Clone(c *Ctx) {
 	ioc := c.Named(CorePath, "ioCore")
 	if c.Anchor("R7.3", "zapcore.ioCore.With", iw != nil && ioc != nil) {
 		rc := PN(iw.Params[0])
-		// the derived core: a fresh ioCore whose encoder is a clone of the receiver's, sharing sink and enabler
-		got := map[string]string{}
-		var encVal ssa.Value
-		Bound(func() {
-			for _, f := range Region(iw) {
-				for _, st := range FieldStoresOf(f, ioc) {
-					if IsFresh(st.Addr.X) {
-						got[st.Field] = Desc(st.Instr.Val)
-						if st.Field == "enc" {
-							encVal = st.Instr.Val
-						}
-					}
+		// by path exploration (helpers inline): the derived core is a fresh ioCore whose encoder is a clone of the
+		// receiver's encoder, sharing sink and enabler (field by field, or as a whole copy with the encoder replaced);
+		// the new fields are serialised into that clone, never into the receiver's encoder
+		resolve := func(st *ConcState, v ssa.Value) ssa.Value {
+			for k := 0; k < 16; k++ {
+				switch x := v.(type) {
+				case *ssa.MakeInterface:
+					v = x.X
+					continue
+				case *ssa.ChangeInterface:
+					v = x.X
+					continue
 				}
+				nx := st.Step(v)
+				if nx == nil {
+					break
+				}
+				v = nx
 			}
+			return v
+		}
+		isCloneOfRecvEnc := func(st *ConcState, v ssa.Value) bool {
+			cl, ok := resolve(st, v).(*ssa.Call)
+			return ok && cl.Call.IsInvoke() && cl.Call.Method.Name() == "Clone" && st.Desc(cl.Call.Value) == rc+".enc"
+		}
+		var got []string
+		var bad []string
+		seqs, trunc := ConcPaths(iw, ConcCfg{
+			Event: func(in ssa.Instruction, st *ConcState) string {
+				switch x := in.(type) {
+				case *ssa.Call:
+					if IsCallTo(x, "go.uber.org/zap/zapcore.addFields") && len(x.Call.Args) == 2 {
+						if isCloneOfRecvEnc(st, x.Call.Args[0]) && resolve(st, x.Call.Args[1]) == ssa.Value(iw.Params[1]) {
+							return "fields-into-clone"
+						}
+						return "fields-into(" + st.Desc(x.Call.Args[0]) + ")"
+					}
+				case *ssa.Return:
+					if len(x.Results) != 1 || len(st.cfg.stackDepth()) != 0 {
+						return ""
+					}
+					obj := resolve(st, x.Results[0])
+					if n, _ := types.Unalias(deref(obj.Type())).(*types.Named); n == nil || n.Obj() != ioc.Obj() {
+						return "ret-other(" + st.Desc(x.Results[0]) + ")"
+					}
+					if _, isAlloc := obj.(*ssa.Alloc); !isAlloc {
+						return "ret-not-fresh(" + st.Desc(x.Results[0]) + ")"
+					}
+					fs := st.FieldsOf(obj)
+					whole := fs["*"] == "*"+rc || fs["*"] == rc
+					field := func(f string) string {
+						if d, ok := fs[f]; ok {
+							return d
+						}
+						if whole {
+							return rc + "." + f
+						}
+						return ""
+					}
+					_, _, encV := st.FieldOf(obj, "enc")
+					okEnc := encV != nil && isCloneOfRecvEnc(st, encV)
+					d := "enc-cloned=" + map[bool]string{true: "yes", false: "no(" + field("enc") + ")"}[okEnc] + ",out=" + field("out") + ",enab=" + field("LevelEnabler")
+					got = append(got, d)
+					if okEnc && field("out") == rc+".out" && field("LevelEnabler") == rc+".LevelEnabler" {
+						return "ret-derived"
+					}
+					return "ret(" + d + ")"
+				}
+				return ""
+			},
 		})
-		c.Check(got["enc"] == "Clone("+rc+".enc)" && got["out"] == rc+".out" && got["LevelEnabler"] == rc+".LevelEnabler", "R7.3", iw.String(), "clone-fields", iw.Pos(), "the derived core has a cloned encoder and the same sink and enabler (%v)", got)
-		okAdd := false
-		for _, call := range CallsDeep(iw) {
-			if IsCallTo(call, "go.uber.org/zap/zapcore.addFields") {
-				a0 := Args(call)[0]
-				var d string
-				Bound(func() { d = Desc(a0) })
-				// the encoder that receives the fields is the clone stored in the new core
-				same := encVal != nil && (Strip(a0) == Strip(encVal) || d == Desc(encVal) || strings.HasSuffix(d, ".enc") && strings.HasPrefix(d, "clone("))
-				okAdd = same && Strip(Args(call)[1]) == ssa.Value(iw.Params[1])
+		for _, sq := range seqs {
+			if sq != "fields-into-clone ; ret-derived" {
+				bad = append(bad, sq)
 			}
 		}
-		c.Check(okAdd, "R7.3", iw.String(), "fields-into-clone", iw.Pos(), "With serialises the new fields into the cloned encoder, never the receiver's")
+		c.Check(!trunc && len(seqs) > 0 && len(bad) == 0, "R7.3", iw.String(), "clone-fields", iw.Pos(), "on every path the derived core is a fresh ioCore with a clone of the receiver's encoder and the same sink and enabler, and the new fields go into that clone before it is returned (%v; offending: %v)", got, bad)
 	}
 }
 
